@@ -12,7 +12,7 @@ pub fn prop() -> Prop {
     Prop {
         id: "C08",
         level: "exploration",
-        rule: "(1) all token strings of length <= 3 over the full vocabulary (keywords, operators, delimiters, identifier spellings that embed/prefix/suffix keywords, numbers, strings) rendered with every per-gap separator choice from {nothing where maximal munch allows, space, newline, line comment}: the token stream must be the concatenation of the tokens of the pieces, every piece one token spanning exactly its text, keywords not identifiers, lexeme kept; (2) all strings of length <= 3 over {a, é, _, 1, 0, .} against a reference maximal-munch lexer; (3) all string contents of length <= 4 over 8 characters encoded with the documented escapes: the parsed String node must equal the content; all raw literal bodies of length <= 4 over {a, quote, backslash, n} followed by more input: the literal ends at the first unescaped quote and decodes as the reference decoder says; (3d) character sweep: every printable ASCII character, tab / newline / carriage return and 24 Unicode representatives (letters of several scripts and widths, digits, white space, combining mark, format characters, symbols), singly and in every ordered pair, inside / at the start / at the end of a word, raw and after a backslash in a string literal, inside / at the end of a comment, and between tokens (illegal characters must be refused); (3h) ~5 000 code points (every one of U+0000-02FF, 2000-22FF, 2600-27FF, 3000-30FF, D700-D7FF, E000-E0FF, FE00-FFFF, 1F300-1F6FF, 1F900-1F9FF, 2F800-2F8FF, E0000-E01FF, 10FF00-10FFFF) inside a string literal, a comment and an identifier; (3g) two literals next to each other (every ordered pair of 24 string contents, and strings next to numbers / names / keyword literals), separated by white space, a comma or a comment; (3f) escape sequences of other languages (a backslash before every ASCII letter and digit with 26 continuations: hex digits incl. surrogates, braces, octal): only the four documented escapes exist; (3e) runs of 1..6 backslashes followed by a quote, the end of the literal or more text, starting at every offset 0..40 (escaped and raw forms), and pairs of special characters adjacent or one apart at every position of literals up to 130 characters; (3c) token-length ladder: one identifier / digit run / fraction / string literal / comment / white-space run of every length around each power of two up to 1025 (8193 thorough), with one escape or wide character at every position near a multiple of 8 and at both ends; (4) nothing is dropped: a text with an illegal character, an unterminated string or a lone & or | is rejected by parse, and between consecutive token spans only white space and comments occur. Non-trivial = more than one token or a literal with an escape; distinct = distinct texts",
+        rule: "(1) all token strings of length <= 3 over the full vocabulary (keywords, operators, delimiters, identifier spellings that embed/prefix/suffix keywords, numbers, strings) rendered with every per-gap separator choice from {nothing where maximal munch allows, space, newline, line comment}: the token stream must be the concatenation of the tokens of the pieces, every piece one token spanning exactly its text, keywords not identifiers, lexeme kept; (2) all strings of length <= 3 over {a, é, _, 1, 0, .} against a reference maximal-munch lexer; (3) all string contents of length <= 4 over 8 characters encoded with the documented escapes: the parsed String node must equal the content; all raw literal bodies of length <= 4 over {a, quote, backslash, n} followed by more input: the literal ends at the first unescaped quote and decodes as the reference decoder says; (3d) character sweep: every printable ASCII character, tab / newline / carriage return and 24 Unicode representatives (letters of several scripts and widths, digits, white space, combining mark, format characters, symbols), singly and in every ordered pair, inside / at the start / at the end of a word, raw and after a backslash in a string literal, inside / at the end of a comment, and between tokens (illegal characters must be refused); (3h) ~5 000 code points (every one of U+0000-02FF, 2000-22FF, 2600-27FF, 3000-30FF, D700-D7FF, E000-E0FF, FE00-FFFF, 1F300-1F6FF, 1F900-1F9FF, 2F800-2F8FF, E0000-E01FF, 10FF00-10FFFF) inside a string literal, directly behind a backslash in a string literal (5 positions), a comment and an identifier; (3g) two literals next to each other (every ordered pair of 24 string contents, and strings next to numbers / names / keyword literals), separated by white space, a comma or a comment; (3i) literal forms of other languages (every ASCII letter and 24 prefixes directly in front of 6 string literals in 4 contexts; 14 digit runs continued by letters): a name and a string / a number and a name, exactly as with a blank in between; (3f) escape sequences of other languages (a backslash before every ASCII letter and digit with 26 continuations: hex digits incl. surrogates, braces, octal): only the four documented escapes exist; (3e) runs of 1..6 backslashes followed by a quote, the end of the literal or more text, starting at every offset 0..40 (escaped and raw forms), and pairs of special characters adjacent or one apart at every position of literals up to 130 characters; (3c) token-length ladder: one identifier / digit run / fraction / string literal / comment / white-space run of every length around each power of two up to 1025 (8193 thorough), with one escape or wide character at every position near a multiple of 8 and at both ends; (4) nothing is dropped: a text with an illegal character, an unterminated string or a lone & or | is rejected by parse, and between consecutive token spans only white space and comments occur. Non-trivial = more than one token or a literal with an escape; distinct = distinct texts",
         assumptions: &[
             "token kinds are compared through their Debug rendering, learnt from single-token inputs (no kind name is hard-coded); the documented token shapes are those of printer::may_touch and the reference lexer in this file",
         ],
@@ -384,6 +384,16 @@ fn code_point_sweep(sh: &mut Shard) {
             (if c == '\n' { "// a\n7".to_string() } else { format!("// a{c}b\n7") }, Some(vec![Stmt::Expr(Expr::Int { value: 7 })])),
             (format!("x{c}y"), if c.is_alphanumeric() || c == '_' { Some(vec![Stmt::Expr(Expr::Identifier(format!("x{c}y")))]) } else { None }),
         ];
+        let mut texts = texts;
+        // directly behind a backslash inside a literal (start, middle, end, behind an escaped backslash): only
+        // the four documented escapes exist, whatever the low byte or the class of the code point
+        for raw in [format!("a\\{c}b\""), format!("\\{c}\""), format!("a\\{c}\""), format!("\\\\\\{c}z\""), format!("\\{c}\\{c}\"")] {
+            if let Some((decoded, used)) = reference_string(&raw) {
+                if used == raw.len() {
+                    texts.push((format!("\"{raw} ; 7"), Some(vec![Stmt::Expr(Expr::String { value: decoded }), Stmt::Expr(Expr::Int { value: 7 })])));
+                }
+            }
+        }
         sh.begin(&|| format!("code point U+{:04X}", c as u32));
         sh.count("family:code-points");
         sh.nontrivial(&(c as u32));
@@ -675,9 +685,66 @@ fn adjacent_literals(sh: &mut Shard) {
     }
 }
 
+/// Literal forms of OTHER languages: a one-, two- or three-letter word directly in front of a string literal
+/// (`r"x"`, `b"x"`, `f"x"`, `u8"x"`, `rb"x"` ...: every ASCII letter, `_`, and the usual prefixes) is a name
+/// followed by a string, exactly as with a blank in between; a digit run continued by letters (`0x10`, `1e5`,
+/// `1_000`, `0b1`) is a number followed by a name.
+fn foreign_literal_forms(sh: &mut Shard) {
+    let mut words: Vec<String> = ('a'..='z').chain('A'..='Z').map(|c| c.to_string()).collect();
+    for w in ["_", "rb", "br", "Rb", "bR", "u8", "fr", "rf", "ur", "LR", "uR", "U8", "r_", "_r", "rr", "R8", "b8", "c8", "f8", "r0", "é", "rrr", "raw", "x1"] {
+        words.push(w.to_string());
+    }
+    let bodies: [(&str, &str); 6] = [("x", "x"), ("", ""), ("a\\tb", "a\tb"), ("a\\\\", "a\\"), ("\\\"", "\""), ("é", "é")];
+    for w in &words {
+        for (raw, decoded) in bodies {
+            for (open, close) in [("[ ", " ]"), ("", ""), ("f ( ", " )"), ("stel v = 1 ", "")] {
+                if !sh.mine() {
+                    continue;
+                }
+                let glued = format!("{open}{w}\"{raw}\"{close}");
+                let spaced = format!("{open}{w} \"{raw}\"{close}");
+                let g = glued.clone();
+                sh.begin(&|| g.clone());
+                sh.count("family:foreign-literal-forms");
+                sh.nontrivial(&glued);
+                match (parse_guarded(&glued), parse_guarded(&spaced)) {
+                    (Parsed::Panic(p), _) | (_, Parsed::Panic(p)) => fail(sh, "foreign-literal-forms", &glued, format!("panic: {p}")),
+                    (Parsed::Ok(a), Parsed::Ok(b)) => {
+                        let has = format!("{a:?}").contains(&format!("String {{ value: {decoded:?} }}")) && format!("{a:?}").contains(&format!("Identifier({w:?})"));
+                        if a != b || !has {
+                            fail(sh, "foreign-literal-forms", &glued, format!("a word directly in front of a string literal is a name and a string: got {a:?}, with a blank in between {b:?}"));
+                        }
+                    }
+                    (a, b) => fail(sh, "foreign-literal-forms", &glued, format!("glued and spaced forms are not both accepted: {} / {}", matches!(a, Parsed::Ok(_)), matches!(b, Parsed::Ok(_)))),
+                }
+            }
+        }
+    }
+    for (glued, spaced) in [("0x10", "0 x10"), ("1e5", "1 e5"), ("1_000", "1 _000"), ("0b1", "0 b1"), ("0o7", "0 o7"), ("1.5e3", "1.5 e3"), ("1.5f", "1.5 f"), ("10L", "10 L"), ("1u8", "1 u8"), ("7n", "7 n"), ("1E5", "1 E5"), ("0X1F", "0 X1F"), ("1.5e", "1.5 e"), ("12px", "12 px")] {
+        for (open, close) in [("[ ", " ]"), ("", ""), ("f ( ", " )")] {
+            if !sh.mine() {
+                continue;
+            }
+            let g = format!("{open}{glued}{close}");
+            let sp = format!("{open}{spaced}{close}");
+            let gg = g.clone();
+            sh.begin(&|| gg.clone());
+            sh.count("family:foreign-literal-forms");
+            sh.nontrivial(&g);
+            match (parse_guarded(&g), parse_guarded(&sp)) {
+                (Parsed::Panic(p), _) | (_, Parsed::Panic(p)) => fail(sh, "foreign-literal-forms", &g, format!("panic: {p}")),
+                (Parsed::Ok(a), Parsed::Ok(b)) if a == b => {}
+                (Parsed::Ok(a), Parsed::Ok(b)) => fail(sh, "foreign-literal-forms", &g, format!("a digit run continued by letters is a number and a name: got {a:?}, with a blank in between {b:?}")),
+                (a, b) => fail(sh, "foreign-literal-forms", &g, format!("glued and spaced forms are not both accepted: {} / {}", matches!(a, Parsed::Ok(_)), matches!(b, Parsed::Ok(_)))),
+            }
+        }
+    }
+}
+
 fn run(sh: &mut Shard) {
     let tier = sh.cfg.tier;
     length_ladder(sh);
+    foreign_literal_forms(sh);
     code_point_sweep(sh);
     adjacent_literals(sh);
     foreign_escapes(sh);
@@ -979,7 +1046,7 @@ fn replay(sh: &mut Shard, case: &Value) {
 }
 
 fn vacuity(m: &Merged) -> Option<String> {
-    for fam in ["sequences", "words", "length-ladder", "code-points", "adjacent-literals", "backslash-runs", "foreign-escapes", "char-sweep", "string-contents", "raw-bodies", "illegal", "spans"] {
+    for fam in ["sequences", "words", "length-ladder", "code-points", "adjacent-literals", "backslash-runs", "foreign-escapes", "foreign-literal-forms", "char-sweep", "string-contents", "raw-bodies", "illegal", "spans"] {
         if m.counters.get(&format!("family:{fam}")).copied().unwrap_or(0) == 0 {
             return Some(format!("family {fam} produced no case"));
         }
